@@ -159,7 +159,7 @@ class Shard:
         self.n_violations += 1
         cls = sig if sig is not None else "|".join(key.split("|")[:2])
         self.viol_classes[cls] = self.viol_classes.get(cls, 0) + 1
-        if len(self.violations) < MAX_VIOL_PER_SHARD:
+        if self.viol_classes[cls] <= 2 and len(self.violations) < 4 * MAX_VIOL_PER_SHARD:
             self.violations.append({
                 "space": self.space, "rank": int(rank), "key": str(key), "sig": sig,
                 "message": str(message)[:2000],
